@@ -38,6 +38,8 @@ def o_call(self, I, args, kwargs, node):
 def o_method(self, I, name, args, kwargs, node):
     if not args and not kwargs:      # argument-less accessor methods are functions of the receiver
         return SOpaque(ufun(f"U!m.{name}", U(), U())(self.t), "any")
+    if not kwargs and args and all(isinstance(a, SOpaque) for a in args):    # pure methods of opaque arguments
+        return SOpaque(ufun(f"U!m.{name}/{len(args)}", *([U()] * (len(args) + 1)), U())(self.t, *[a.t for a in args]), "any")
     return SOpaque(I.ctx.fresh(f"m_{name}", U()), "any")
 
 
